@@ -476,6 +476,12 @@ func (r *Run) havocLoop(st *State, fr *Frame, li *LoopInfo) {
 	sort.Slice(cells, func(i, j int) bool { return cells[i].ID < cells[j].ID })
 	for _, c := range cells {
 		st.Cells[c] = e.freshVal(st, c.Typ, "loop_"+c.Name)
+		if c.Name == "rangeindex" {
+			// the hidden index of a range-over-slice loop starts at -1 and is only incremented
+			if t, ok := st.Cells[c].(T); ok && t.So == SInt {
+				st.assume(App(SBool, ">=", t, IntLit(-1)))
+			}
+		}
 	}
 }
 
@@ -941,6 +947,77 @@ func (r *Run) newObject(st *State, t types.Type, hint string) T {
 	return ref
 }
 
+// closureUses: does fn (or a closure nested in it) use its free variable i; second result: does it write it.
+func closureUses(fn *ssa.Function, i int) (bool, bool) {
+	if i >= len(fn.FreeVars) {
+		return false, false
+	}
+	fv := fn.FreeVars[i]
+	used, wr := false, false
+	for _, b := range fn.Blocks {
+		for _, in := range b.Instrs {
+			for _, op := range in.Operands(nil) {
+				if op != nil && *op == ssa.Value(fv) {
+					used = true
+				}
+			}
+			if s, ok := in.(*ssa.Store); ok && s.Addr == fv {
+				wr = true
+			}
+			if mc, ok := in.(*ssa.MakeClosure); ok {
+				for j, bb := range mc.Bindings {
+					if bb == fv {
+						u, w := closureUses(mc.Fn.(*ssa.Function), j)
+						used = used || u
+						wr = wr || w
+					}
+				}
+			}
+		}
+	}
+	return used, wr
+}
+
+// shareClosure: the closure starts running concurrently with the current goroutine (go statement, AfterFunc
+// hook): the local variables it captures become shared.
+func (r *Run) shareClosure(st *State, c *Closure, how string) {
+	for i, b := range c.Binds {
+		a, ok := b.(*Addr)
+		if !ok || a.Kind != ACell {
+			continue
+		}
+		used, wr := closureUses(c.Fn, i)
+		if !used {
+			continue
+		}
+		mode := "r"
+		if wr || st.Shared[a.Cell] == "w" {
+			mode = "w"
+		}
+		st.Shared[a.Cell] = mode
+	}
+}
+
+// sharedCellCheck: an access to a local variable that a concurrently running closure also uses needs a
+// common lock (approximated: some lock is held) unless both sides only read.
+func (r *Run) sharedCellCheck(st *State, fr *Frame, c *Cell, write bool, in ssa.Instruction) {
+	e := r.e
+	if c.Name == "" || strings.Contains(c.Name, "$") || !e.spawningFns[e.fnName[fr.Fn]] {
+		return
+	}
+	mode, shared := st.Shared[c]
+	goal := True
+	if shared && (write || mode == "w") && len(st.Locks) == 0 {
+		goal = False
+	}
+	kind := "r"
+	if write {
+		kind = "w"
+	}
+	e.emitWith(st, fmt.Sprintf("%s/own:local-%s.%s", e.fnName[fr.Fn], c.Name, kind), "", nil, goal,
+		"local variable "+c.Name+" is not accessed without a lock while a concurrently running closure uses it", e.posOf(in), []string{"C11"}, nil)
+}
+
 // assumeFreshTerm: a newly created value differs from every value of its sort that existed before.
 func (r *Run) assumeFreshTerm(st *State, t T) {
 	for _, o := range st.Fresh {
@@ -957,6 +1034,14 @@ func (r *Run) assumeFreshTerm(st *State, t T) {
 }
 
 func (r *Run) isFresh(st *State, ref T) bool {
+	// a struct nested by value in a fresh object is as fresh as the object
+	for i := 0; i < 4; i++ {
+		ni, ok := r.e.nested[ref.S]
+		if !ok {
+			break
+		}
+		ref = ni.Base
+	}
 	for _, o := range st.Fresh {
 		if o.S == ref.S {
 			return !st.Escaped[ref.S]
@@ -1075,6 +1160,7 @@ func (r *Run) load(st *State, fr *Frame, av Val, t types.Type, in ssa.Instructio
 	case *Addr:
 		switch a.Kind {
 		case ACell:
+			r.sharedCellCheck(st, fr, a.Cell, false, in)
 			v := st.Cells[a.Cell]
 			if sv, ok := v.(*SliceV); ok {
 				c := *sv
@@ -1140,6 +1226,7 @@ func (r *Run) store(st *State, fr *Frame, av Val, v Val, vt types.Type, in ssa.I
 	case *Addr:
 		switch a.Kind {
 		case ACell:
+			r.sharedCellCheck(st, fr, a.Cell, true, in)
 			st.Cells[a.Cell] = v
 			return
 		case AField:
